@@ -42,6 +42,8 @@ def _world(r):
         names['bl'] = [0] * 64 + [[1]] + [0] * 15 + [{'m': [['k', [2]]]}] + [0] * 49       # 130 elements, containers at 64 and 80
     if r.random() < 0.08:
         names['bl2'] = [0] * 105 + [[3]] + [0] * 34                                       # 140 elements, one list at position 105
+    if r.random() < 0.1:
+        names['md'] = {'m': [['k%03d' % i, [i]] for i in range(r.choice([70, 100, 300]))]}      # a dict of 70 / 100 / 300 lists
     if r.random() < 0.3:
         names['nv'] = None                   # a host variable that holds nothing yet
     if r.random() < 0.3:
